@@ -12,6 +12,8 @@ search     : the property itself on the real classes against an independent Pyth
 """
 import copy
 import glob
+import pickle
+import random as _random
 import json
 import math
 import os
@@ -118,14 +120,128 @@ def dec_sel(s):
 
 def enc_spec(spec):
     return dict(kind=spec.kind, cols=list(spec.cols), events=spec.events, tab_headers=spec.tab_headers,
-                trailing_nl=spec.trailing_nl, impacts=list(spec.impacts))
+                trailing_nl=spec.trailing_nl, impacts=list(spec.impacts), text_variant=getattr(spec, "text_variant", "lf"))
 
 
 def dec_spec(d):
     imp = d.get("impacts")
-    return rmodel.FileSpec(d["kind"], d["cols"], d["events"], tab_headers=d.get("tab_headers", True),
-                           trailing_nl=d.get("trailing_nl", True),
-                           impacts=imp if imp is not None and len(imp) == len(d["events"]) else None)
+    sp = rmodel.FileSpec(d["kind"], d["cols"], d["events"], tab_headers=d.get("tab_headers", True),
+                         trailing_nl=d.get("trailing_nl", True),
+                         impacts=imp if imp is not None and len(imp) == len(d["events"]) else None)
+    sp.text_variant = d.get("text_variant", "lf")
+    return sp
+
+
+# ----------------------------------------------------------------------------- text variants, copies, environment
+# The same file content written differently.  Only the FREE-TEXT parts are touched (Oscar: units line and version line;
+# JETSCAPE: the first header line) — token lines are left alone.  A variant is admissible for a file when the plain full
+# load X(path) reads it; the selection must then equal the slice of that load like for any other file.
+TEXT_VARIANTS = ["lf", "crlf", "nonascii", "blanks", "nonascii+crlf", "blanks+crlf"]
+FREE_TEXT_TAIL = " \u2013 build of J. M\u00fcller, \u00c5ngstr\u00f6m \u03b7"
+
+
+def spec_text(spec):
+    """the characters of the file (with \\r\\n line ends for the crlf variants)"""
+    tv = getattr(spec, "text_variant", "lf") or "lf"
+    L = spec.lines()
+    free = [0] if spec.is_jetscape() else [1, 2]
+    if "nonascii" in tv:
+        for i in free:
+            L[i] = L[i] + FREE_TEXT_TAIL
+    if "blanks" in tv:
+        for i in free:
+            L[i] = L[i] + "   "
+    t = "\n".join(L) + ("\n" if spec.trailing_nl else "")
+    return t.replace("\n", "\r\n") if "crlf" in tv else t
+
+
+def spec_bytes(spec):
+    return spec_text(spec).encode("utf-8")
+
+
+def spec_decoded(spec):
+    """what Python's text layer (universal newlines, UTF-8) hands to the loaders — the input of the model"""
+    return spec_text(spec).replace("\r\n", "\n")
+
+
+def via_copy(obj, via):
+    """the object itself, or a copy.copy / copy.deepcopy / pickle round trip of it"""
+    if via == "copy":
+        return copy.copy(obj)
+    if via == "deepcopy":
+        return copy.deepcopy(obj)
+    if via == "pickle":
+        return pickle.loads(pickle.dumps(obj))
+    return obj
+
+
+def gen_via(rng, p=0.3):
+    return rng.choice(["copy", "deepcopy", "pickle"]) if rng.random() < p else None
+
+
+def _np_state_equal(a, b):
+    return a[0] == b[0] and np.array_equal(a[1], b[1]) and tuple(a[2:]) == tuple(b[2:])
+
+
+class EnvGuard:
+    """process-global state around constructor calls.  `on`: the calls run with np.seterr(all="warn"), unusual numpy
+    print options and advanced `random` / `np.random` global generators; `cwd`: inside a fresh directory (bare relative
+    file names).  In every case the state found before a call must be the state left after it."""
+
+    def __init__(self, on=False, cwd=False, seed=0):
+        self.on, self.cwd, self.seed, self.dir = on, cwd, seed, None
+
+    def __enter__(self):
+        self.saved = (os.getcwd(), _random.getstate(), np.random.get_state(), np.geterr(), np.get_printoptions())
+        if self.cwd:
+            self.dir = tempfile.mkdtemp(prefix="cwd_", dir=_TMP)
+            os.chdir(self.dir)
+        if self.on:
+            np.seterr(all="warn")
+            np.set_printoptions(precision=2, threshold=3, linewidth=30, suppress=True, sign="+")
+            _random.seed(self.seed)
+            for _ in range(self.seed % 17 + 3):
+                _random.random()
+            np.random.seed(self.seed % (2 ** 32))
+            np.random.rand(self.seed % 13 + 2)
+        return self
+
+    def snap(self):
+        return (os.getcwd(), _random.getstate(), np.random.get_state(), np.geterr(), np.get_printoptions())
+
+    @staticmethod
+    def changed(a, b):
+        if a[0] != b[0]:
+            return "cwd", f"{a[0]} -> {b[0]}"
+        if a[1] != b[1]:
+            return "random-global-state", "the state of the `random` module generator moved"
+        if not _np_state_equal(a[2], b[2]):
+            return "np.random-global-state", "the state of numpy's global generator moved"
+        if a[3] != b[3]:
+            return "np.geterr", f"{a[3]} -> {b[3]}"
+        if a[4] != b[4]:
+            return "np.printoptions", "numpy print options changed"
+        return None
+
+    def __exit__(self, *exc):
+        cwd, rs, nrs, err, po = self.saved
+        os.chdir(cwd)
+        _random.setstate(rs)
+        np.random.set_state(nrs)
+        np.seterr(**err)
+        np.set_printoptions(**po)
+        if self.dir:
+            shutil.rmtree(self.dir, ignore_errors=True)
+        return False
+
+
+def gen_env(rng, p_env=0.25):
+    e = {}
+    if rng.random() < p_env:
+        e["npstate"] = rng.randrange(1, 10 ** 6)
+    if rng.random() < p_env:
+        e["cwd"] = True
+    return e
 
 
 # ----------------------------------------------------------------------------- generators
@@ -316,7 +432,7 @@ def real_obs(spec, sel, calls):
         kw["events"] = sel
     if calls is not None:
         kw["filters"] = rmodel.filters_dict(calls)
-    s, obj = rmodel.run_real(spec, keep=True, **kw)
+    s, obj = rmodel.run_real(spec, text=spec_text(spec), keep=True, **kw)
     if obj is None:
         return s
     key2line = {}
@@ -338,7 +454,7 @@ def obs_line(spec, sel, calls):
     kind = "oscar" if not spec.is_jetscape() else spec.kind
     sizes = ",".join(str(len(e)) for e in spec.events) or "-"
     return "\t".join(["obs", kind, rmodel.sel_enc(sel), rmodel.filters_enc(calls),
-                      rmodel.views_enc(spec) if calls is not None else "-", sizes, common.hexs(spec.text())])
+                      rmodel.views_enc(spec) if calls is not None else "-", sizes, common.hexs(spec_decoded(spec))])
 
 
 def mask_imp(s):
@@ -371,6 +487,7 @@ def build_cases(ctx):
         extra_big = 2
     for kind, pat in plan:
         spec = gen_file(rng, kind, gen_sizes(rng, pat), full_cols=rng.random() < 0.5)
+        spec.text_variant = gen_text_variant(rng, 0.3)
         n = len(pat)
         filt_opts = [None, gen_calls(rng, kind), gen_calls(rng, kind)]
         if rng.random() < 0.3:
@@ -401,6 +518,7 @@ def build_cases(ctx):
         kind = kinds[i % len(kinds)]
         n = rng.randint(lo, hi)
         spec = gen_big_file(rng, kind, n)
+        spec.text_variant = gen_text_variant(rng, 0.3)
         filt = gen_calls(rng, kind)
         for j, sel in enumerate(big_selectors(rng, n, 9 if not ctx.thorough else 14)):
             cases.append((spec, sel, None if j % 3 != 2 else rng.choice([filt, [("charged_particles", ())]])))
@@ -430,14 +548,26 @@ def correspond(ctx):
                 "parton, tab/space headers) with EVERY pattern of empty events for 1..4 events (thorough: all 30 patterns x 5 kinds; "
                 "quick: a sample) plus some 5-7 event files; every valid selector (each k, each a<=b) and `all`; files with 9-12, 17, "
                 "33-40, 65+ events (every event its own impact parameter, footer, label) with sampled selectors biased to ranges "
-                "straddling multiples of 8/16/32/64 and to both ends; invalid selectors "
+                "straddling multiples of 8/16/32/64 and to both ends; about a third of the files written as CRLF / with non-ASCII "
+                "characters or trailing blanks in the free-text header lines (the real code reads the bytes, the model the text "
+                "Python's text layer decodes: universal newlines, UTF-8); invalid selectors "
                 "(out of range, negative, reversed); filters none / {} / random dictionaries over the keys the class supports / "
                 "an all-removing cut.  Compared: returned object, particle_list(), impact_parameters() (real) vs model, model vs "
                 "its spec side (slice + ctorFilter), and checkOscar/checkJetscape on the real bytes.  non-trivial = valid proper "
                 "sub-selection of a file that has an empty event, or any valid selection with filters.  Oracle: SESSIONS — one file "
                 "on disk / one nested list object is re-used for all constructor calls of a case in random order (reference load "
                 "first, in the middle or last); the input is compared with a deep snapshot after every call (file bytes; list and "
-                "particle identities, lengths, data_), objects built earlier are re-observed after the later calls")
+                "particle identities, lengths, data_), objects built earlier are re-observed after the later calls.  Round-4 devices "
+                "in the sessions: objects under test and the input list looked at through copy.copy / deepcopy / pickle round "
+                "trips; the nested list handed over with tuple / object-array inner events (accepted) and as tuple / object array / "
+                "generator / iterator or with iterator events (rejected with TypeError: the reference load of the session is the "
+                "probe, every call must agree with it); calls inside a fresh cwd with a bare relative file name, with "
+                "np.seterr(all='warn'), unusual print options and advanced global random generators — cwd, np.geterr(), print "
+                "options and both global generators must be left as found")
+    ctx.assumptions.append("C02 text variants: only free-text lines are varied (Oscar units/version line, JETSCAPE first line); a "
+                           "variant file is an admissible input iff the plain full load reads it (trailing blanks on token lines "
+                           "change the token count and are outside the file grammar); `events=` accepts a Python int or a tuple of "
+                           "two Python ints only (numpy integers / lists are rejected by the loaders with TypeError)")
     cases = [(s, sel, c) for s, sel, c, _ in corpus_cases()] + build_cases(ctx)
     # make sure every supported filter key occurs at least once per tier
     missing = [k for k in sorted(set(OSCAR_KEYS) | set(JETSCAPE_KEYS)) if k not in covered_keys(cases)]
@@ -477,7 +607,7 @@ def correspond(ctx):
         proper = valid and sel is not None and not (isinstance(sel, tuple) and sel == (0, n - 1) and n > 0) and n > 1
         nontriv = valid and real.startswith("ok") and ((proper and has_empty) or calls)
         canon = (spec.kind, tuple(len(e) for e in spec.events), enc_sel(sel) if not isinstance(sel, tuple) else sel,
-                 repr(enc_calls(calls)), spec.text() if calls else len(spec.cols))
+                 repr(enc_calls(calls)), spec_text(spec) if calls else (len(spec.cols), getattr(spec, "text_variant", "lf")))
         ctx.case(canon, bool(nontriv), sample=dict(kind=spec.kind, sizes=[len(e) for e in spec.events], events=enc_sel(sel),
                                                   filters=enc_calls(calls), code=real, model=model))
         ctx.count(f"{spec.kind}/{tag}/" + ("nofilter" if calls is None else "filters" if calls else "emptydict")
@@ -709,76 +839,134 @@ def check_file(spec, full, obj, sel, calls):
     return None
 
 
-def file_session(spec, ops, refpos=0):
-    """One file on disk, used for every constructor call of the case: the calls `ops` = [(sel, calls), …] in the given
-    order with the reference load X(path) inserted at position `refpos`.  After EVERY call the file must be byte-identical;
-    after ALL calls every object built earlier must still show what it showed when it was built; then each object is
-    compared with the slice of the reference.  Returns (failures [(key, what)], number of skipped ops)."""
+def op3(op):
+    """(sel, calls) or (sel, calls, via) -> (sel, calls, via)"""
+    return (op[0], op[1], op[2] if len(op) > 2 else None)
+
+
+def enc_ops(ops):
+    return [[enc_sel(o[0]), enc_calls(o[1]), op3(o)[2]] for o in ops]
+
+
+def dec_ops(lst):
+    return [(dec_sel(o[0]), dec_calls(o[1]), o[2] if len(o) > 2 else None) for o in lst]
+
+
+def env_tag(env):
+    return "+".join(k for k in ("npstate", "cwd") if env.get(k)) or "default"
+
+
+def file_session(spec, ops, refpos=0, env=None):
+    """One file on disk, used for every constructor call of the case: the calls `ops` = [(sel, calls, via), …] in the
+    given order with the reference load X(path) inserted at position `refpos`.
+    * the file is written in the spec's text variant (LF / CRLF / non-ASCII or trailing blanks in the free-text lines);
+      if the plain full load does not read a non-plain variant the file is not an admissible input (counted, not judged);
+    * `env`: the calls run inside a fresh working directory with a bare relative file name (`cwd`), and / or with
+      np.seterr(all="warn"), unusual print options and advanced global random generators (`npstate`); cwd, np.geterr(),
+      print options and both global generators must be left as found by every call;
+    * `via`: the object returned by a call is replaced by its copy.copy / deepcopy / pickle round trip before it is looked at;
+    * after EVERY call the file must be byte-identical; after ALL calls every object built earlier must still show what
+      it showed when it was built; then each object is compared with the slice of the reference.
+    Returns (failures [(key, what)], number of ops not judged)."""
     from sparkx.Oscar import Oscar
     from sparkx.Jetscape import Jetscape
+    env = env or {}
     cls = "Jetscape" if spec.is_jetscape() else "Oscar"
-    _, path = rmodel.open_real(spec)
+    tv = getattr(spec, "text_variant", "lf") or "lf"
+    ops = [op3(o) for o in ops]
     fails, skipped = [], 0
-    try:
-        bytes0 = open(path, "rb").read()
-        seq = list(range(len(ops)))
-        seq.insert(max(0, min(refpos, len(ops))), "ref")
-        built = {}
-        tainted = False
-        for it in seq:
-            sel, calls = (None, None) if it == "ref" else ops[it]
-            kw = {}
-            if sel is not None:
-                kw["events"] = sel
-            if calls is not None:
-                kw["filters"] = rmodel.filters_dict(calls)
-            if spec.kind == "jetscapeP":
-                kw["particletype"] = "parton"
-            try:
-                with np.errstate(all="ignore"):
-                    obj = Jetscape(path, **kw) if spec.is_jetscape() else Oscar(path, **kw)
-            except Exception as e:
-                obj = e
-            now = open(path, "rb").read()
-            if now != bytes0:
-                fails.append((f"input-modified:{cls}:{opt_tag(sel, calls)}:file-bytes",
-                              f"{cls}(path, events={sel}, filters={enc_calls(calls)}) changed the file on disk "
-                              f"({len(bytes0)} -> {len(now)} bytes)"))
-                tainted = True
-                break          # everything after this call would be judged on a modified input
-            built[it] = (obj, None if isinstance(obj, Exception) else observe_obj(obj))
-        for it in [x for x in seq if x in built]:
-            obj, o = built[it]
-            if o is not None:
-                d = obs_diff(o, observe_obj(obj))
-                if d:
-                    sel, calls = (None, None) if it == "ref" else ops[it]
-                    fails.append((f"earlier-object-changed:{cls}:{d}",
-                                  f"{cls}(path, events={sel}, filters={enc_calls(calls)}) shows a different {d} after the later "
-                                  f"constructor calls {[('ref' if x == 'ref' else ops[x][0]) for x in seq[seq.index(it) + 1:]]} on the same file"))
-        if tainted:
-            return fails, skipped
-        full = built["ref"][0]
-        if isinstance(full, Exception):
-            fails.append((f"{cls}:full-load-raises", f"{cls}(path) raised {type(full).__name__}: {full}"))
-            return fails, skipped
-        for i, (sel, calls) in enumerate(ops):
-            r = check_file(spec, full, built[i][0], sel, calls)
-            if r == "skip":
-                skipped += 1
-            elif r is not None:
-                fails.append(r)
-    finally:
+    data = spec_bytes(spec)
+    with EnvGuard(on=bool(env.get("npstate")), cwd=bool(env.get("cwd")), seed=int(env.get("npstate") or 0)) as guard:
+        if env.get("cwd"):
+            path = "x" + spec.suffix()
+        else:
+            fd, path = tempfile.mkstemp(suffix=spec.suffix(), prefix="verif_", dir=_TMP)
+            os.close(fd)
+        with open(path, "wb") as f:
+            f.write(data)
         try:
-            os.unlink(path)
-        except OSError:
-            pass
+            seq = list(range(len(ops)))
+            seq.insert(max(0, min(refpos, len(ops))), "ref")
+            built = {}
+            tainted = False
+            for it in seq:
+                sel, calls, via = (None, None, env.get("via_ref")) if it == "ref" else ops[it]
+                kw = {}
+                if sel is not None:
+                    kw["events"] = sel
+                if calls is not None:
+                    kw["filters"] = rmodel.filters_dict(calls)
+                if spec.kind == "jetscapeP":
+                    kw["particletype"] = "parton"
+                before = guard.snap()
+                try:
+                    if env.get("npstate"):
+                        obj = Jetscape(path, **kw) if spec.is_jetscape() else Oscar(path, **kw)
+                    else:
+                        with np.errstate(all="ignore"):
+                            obj = Jetscape(path, **kw) if spec.is_jetscape() else Oscar(path, **kw)
+                except Exception as e:
+                    obj = e
+                ch = EnvGuard.changed(before, guard.snap())
+                if ch:
+                    fails.append((f"environment-changed:{cls}:{ch[0]}",
+                                  f"{cls}(path, events={sel}, filters={enc_calls(calls)}) does not leave {ch[0]} as it found it: {ch[1]}"))
+                    os.chdir(before[0])
+                now = open(path, "rb").read()
+                if now != data:
+                    fails.append((f"input-modified:{cls}:{opt_tag(sel, calls)}:file-bytes",
+                                  f"{cls}(path, events={sel}, filters={enc_calls(calls)}) changed the file on disk "
+                                  f"({len(data)} -> {len(now)} bytes)"))
+                    tainted = True
+                    break          # everything after this call would be judged on a modified input
+                if via and not isinstance(obj, Exception):
+                    try:
+                        obj = via_copy(obj, via)
+                    except Exception as e:
+                        fails.append((f"copy-raises:{cls}:{via}", f"{via} of {cls}(path, events={sel}, filters={enc_calls(calls)}) "
+                                      f"raised {type(e).__name__}: {e}"))
+                built[it] = (obj, None if isinstance(obj, Exception) else observe_obj(obj))
+            for it in [x for x in seq if x in built]:
+                obj, o = built[it]
+                if o is not None:
+                    d = obs_diff(o, observe_obj(obj))
+                    if d:
+                        sel, calls, via = (None, None, None) if it == "ref" else ops[it]
+                        fails.append((f"earlier-object-changed:{cls}:{d}",
+                                      f"{cls}(path, events={sel}, filters={enc_calls(calls)}) shows a different {d} after the later "
+                                      f"constructor calls {[('ref' if x == 'ref' else ops[x][0]) for x in seq[seq.index(it) + 1:]]} on the same file"))
+            if tainted:
+                return fails, skipped
+            full = built["ref"][0]
+            if isinstance(full, Exception):
+                if tv != "lf":
+                    return fails, len(ops)        # the plain loader does not read this variant: not an admissible file
+                fails.append((f"{cls}:full-load-raises", f"{cls}(path) raised {type(full).__name__}: {full}"))
+                return fails, skipped
+            for i, (sel, calls, via) in enumerate(ops):
+                r = check_file(spec, full, built[i][0], sel, calls)
+                if r == "skip":
+                    skipped += 1
+                elif r is not None:
+                    extra = []
+                    if tv != "lf":
+                        extra.append(f"file written as `{tv}`")
+                    if env_tag(env) != "default":
+                        extra.append(f"environment {env_tag(env)}")
+                    if via:
+                        extra.append(f"object looked at through {via}")
+                    fails.append((r[0], r[1] + (" [" + "; ".join(extra) + "]" if extra else "")))
+        finally:
+            try:
+                os.unlink(path)
+            except OSError:
+                pass
     return fails, skipped
 
 
 def oracle_file(spec, sel, calls):
     """None | "skip" | (key, what) for a single selection (reference load first)"""
-    fails, skipped = file_session(spec, [(sel, calls)], 0)
+    fails, skipped = file_session(spec, [(sel, calls, None)], 0)
     if fails:
         return fails[0]
     return "skip" if skipped else None
@@ -808,7 +996,7 @@ def list_diff(s0, evs):
     return None
 
 
-def check_pos(pristine, obj, sel, calls):
+def check_pos(pristine, obj, sel, calls, by_identity=True):
     """None | "skip" | (key, what): ParticleObjectStorer(list, events=sel[, filters]) against slicing the pristine list"""
     n = len(pristine)
     a, b = (0, n - 1) if sel is None else window(sel, n)
@@ -830,9 +1018,10 @@ def check_pos(pristine, obj, sel, calls):
             return "skip"
         return ("ParticleObjectStorer(events=):constructor-raises", f"events={sel}: {type(obj).__name__}: {obj}")
     got = obj.particle_objects_list()
-    if len(got) != len(exp) or any(len(x) != len(y) or any(p is not q for p, q in zip(x, y)) for x, y in zip(got, exp)):
+    same = (lambda p, q: p is q) if by_identity else same_particle
+    if len(got) != len(exp) or any(len(x) != len(y) or any(not same(p, q) for p, q in zip(x, y)) for x, y in zip(got, exp)):
         return ("ParticleObjectStorer(events=):events", f"events={sel}, filters={enc_calls(calls)}: held events {[len(e) for e in got]} "
-                f"are not the selected (filtered) events {[len(e) for e in exp]} (compared by identity)")
+                f"are not the selected (filtered) events {[len(e) for e in exp]} (compared by {'identity' if by_identity else 'data_'})")
     if obj.num_events() != len(exp):
         return ("ParticleObjectStorer(events=):num_events", f"{n} events, events={sel}: num_events()={obj.num_events()}, expected {len(exp)}")
     c = obj.num_output_per_event()
@@ -840,7 +1029,7 @@ def check_pos(pristine, obj, sel, calls):
     ok = False
     try:
         arr = np.asarray(c)
-        ok = arr.ndim == 2 and [[int(r[0]), int(r[1])] for r in arr] == want
+        ok = (arr.ndim == 2 and [[int(r[0]), int(r[1])] for r in arr] == want) or (len(want) == 0 and arr.size == 0)
     except Exception:
         ok = False
     if not ok:
@@ -857,57 +1046,130 @@ def check_pos(pristine, obj, sel, calls):
     return None
 
 
-def pos_session(pseed, sizes, ops, refpos=0):
+# how the nested list is handed over.  The documentation asks for "a list of lists of Particle objects": a non-list
+# OUTER container (tuple, object array, generator, iterator) is rejected with TypeError; INNER events may be any sized
+# sequence (tuple, object array) but not a one-shot iterator.  The reference load of a session decides (probe): if it
+# accepts the container every call of the session is judged as usual, if it rejects it every call must reject it too.
+CONTAINERS = ["list", "inner-tuple", "inner-ndarray", "outer-tuple", "outer-ndarray", "outer-generator", "outer-iter", "inner-iter"]
+
+
+def as_container(evs, container):
+    """-> (object handed to the constructor, the sized view the harness keeps for its snapshot)"""
+    def arr(xs):
+        a = np.empty(len(xs), dtype=object)
+        for i, x in enumerate(xs):
+            a[i] = x
+        return a
+    if container == "inner-tuple":
+        v = [tuple(e) for e in evs]
+        return v, v
+    if container == "inner-ndarray":
+        v = [arr(e) for e in evs]
+        return v, v
+    if container == "outer-tuple":
+        return tuple(evs), evs
+    if container == "outer-ndarray":
+        return arr(evs), evs
+    if container == "outer-generator":
+        return (e for e in evs), evs
+    if container == "outer-iter":
+        return iter(evs), evs
+    if container == "inner-iter":
+        return [iter(e) for e in evs], evs
+    return evs, evs
+
+
+def pos_session(pseed, sizes, ops, refpos=0, env=None):
     """The same nested list object is handed to every constructor call (ops in order, the full reference load at
     `refpos`).  After every call the caller's list must be unmodified (list identities, lengths, particle identities,
-    data_); after all calls earlier objects are re-observed; every object is compared with the slice of the pristine list."""
-    import random
+    data_) and the process-global state as found; after all calls earlier objects are re-observed; every object is
+    compared with the slice of the pristine list.  env: `input_via` (the list handed over is a copy / deepcopy / unpickled
+    copy of the one built), `container` (see CONTAINERS), `npstate`, per-op `via` (see file_session)."""
     from sparkx.ParticleObjectStorer import ParticleObjectStorer
-    evs = make_list(random.Random(pseed), sizes)
-    s0 = list_snapshot(evs)
+    env = env or {}
+    ops = [op3(o) for o in ops]
+    evs = via_copy(make_list(_random.Random(pseed), sizes), env.get("input_via"))
+    container = env.get("container") or "list"
+    handed, view = as_container(evs, container)
+    one_shot = container in ("outer-generator", "outer-iter", "inner-iter")
+    s0 = list_snapshot(view)
     pristine = s0["keep"]
     fails, skipped = [], 0
     seq = list(range(len(ops)))
     seq.insert(max(0, min(refpos, len(ops))), "ref")
     built = {}
     tainted = False
-    for it in seq:
-        sel, calls = (None, None) if it == "ref" else ops[it]
-        kw = {}
-        if sel is not None:
-            kw["events"] = sel
-        if calls is not None:
-            kw["filters"] = rmodel.filters_dict(calls)
-        try:
-            with np.errstate(all="ignore"):
-                obj = ParticleObjectStorer(evs, **kw)
-        except Exception as e:
-            obj = e
-        d = list_diff(s0, evs)
-        if d:
-            fails.append((f"input-modified:ParticleObjectStorer:{opt_tag(sel, calls)}:{d[0]}",
-                          f"ParticleObjectStorer(list, events={sel}, filters={enc_calls(calls)}) modified the caller's list of event "
-                          f"sizes {s0['lens']}: {d[1]}"))
-            tainted = True
-            break              # everything after this call would be judged on a modified input
-        built[it] = (obj, None if isinstance(obj, Exception) else observe_obj(obj))
+    with EnvGuard(on=bool(env.get("npstate")), seed=int(env.get("npstate") or 0)) as guard:
+        for it in seq:
+            sel, calls, via = (None, None, env.get("via_ref")) if it == "ref" else ops[it]
+            kw = {}
+            if sel is not None:
+                kw["events"] = sel
+            if calls is not None:
+                kw["filters"] = rmodel.filters_dict(calls)
+            if one_shot:
+                handed, _ = as_container(evs, container)       # a fresh one-shot object per call
+            before = guard.snap()
+            try:
+                if env.get("npstate"):
+                    obj = ParticleObjectStorer(handed, **kw)
+                else:
+                    with np.errstate(all="ignore"):
+                        obj = ParticleObjectStorer(handed, **kw)
+            except Exception as e:
+                obj = e
+            ch = EnvGuard.changed(before, guard.snap())
+            if ch:
+                fails.append((f"environment-changed:ParticleObjectStorer:{ch[0]}",
+                              f"ParticleObjectStorer(list, events={sel}, filters={enc_calls(calls)}) does not leave {ch[0]} as it found it: {ch[1]}"))
+            d = list_diff(s0, view)
+            if d:
+                fails.append((f"input-modified:ParticleObjectStorer:{opt_tag(sel, calls)}:{d[0]}",
+                              f"ParticleObjectStorer(list, events={sel}, filters={enc_calls(calls)}) modified the caller's list of event "
+                              f"sizes {s0['lens']}: {d[1]}"))
+                tainted = True
+                break              # everything after this call would be judged on a modified input
+            if via and not isinstance(obj, Exception):
+                try:
+                    obj = via_copy(obj, via)
+                except Exception as e:
+                    fails.append((f"copy-raises:ParticleObjectStorer:{via}", f"{via} of ParticleObjectStorer(list, events={sel}, "
+                                  f"filters={enc_calls(calls)}) raised {type(e).__name__}: {e}"))
+            built[it] = (obj, None if isinstance(obj, Exception) else observe_obj(obj), via)
     for it in [x for x in seq if x in built]:
-        obj, o = built[it]
+        obj, o, _ = built[it]
         if o is not None:
             d = obs_diff(o, observe_obj(obj))
             if d:
-                sel, calls = (None, None) if it == "ref" else ops[it]
+                sel, calls, _ = (None, None, None) if it == "ref" else ops[it]
                 later = [("ref" if x == "ref" else (ops[x][0], enc_calls(ops[x][1]))) for x in seq[seq.index(it) + 1:]]
                 fails.append((f"earlier-object-changed:ParticleObjectStorer:{d}",
                               f"ParticleObjectStorer(list, events={sel}, filters={enc_calls(calls)}) built from a list of event sizes "
                               f"{s0['lens']} shows a different {d} after the later constructor calls {later} on the same list"))
-    for it in ([] if tainted else seq):
-        sel, calls = (None, None) if it == "ref" else ops[it]
-        r = check_pos(pristine, built[it][0], sel, calls)
+    if tainted:
+        return fails, skipped
+    ref = built["ref"][0]
+    if container != "list" and isinstance(ref, Exception):
+        # the reference load rejects this container: every call of the session has to reject it the same way
+        for i, (sel, calls, via) in enumerate(ops):
+            o = built[i][0]
+            if not isinstance(o, Exception) or type(o) is not type(ref):
+                fails.append((f"container-acceptance-inconsistent:ParticleObjectStorer:{container}",
+                              f"ParticleObjectStorer({container}) raises {type(ref).__name__} but with events={sel}, filters={enc_calls(calls)} "
+                              f"it {'raises ' + type(o).__name__ if isinstance(o, Exception) else 'is accepted'}"))
+        return fails, skipped
+    for it in seq:
+        sel, calls, _ = (None, None, None) if it == "ref" else ops[it]
+        obj, _, via = built[it]
+        r = check_pos(pristine, obj, sel, calls, by_identity=via not in ("deepcopy", "pickle"))
         if r == "skip":
             skipped += 1
         elif r is not None:
-            fails.append(r)
+            extra = [x for x in ((f"list handed over as {container}" if container != "list" else ""),
+                                 (f"input list through {env.get('input_via')}" if env.get("input_via") else ""),
+                                 (f"object looked at through {via}" if via else ""),
+                                 ("environment npstate" if env.get("npstate") else "")) if x]
+            fails.append((r[0], r[1] + (" [" + "; ".join(extra) + "]" if extra else "")))
     return fails, skipped
 
 
@@ -1000,7 +1262,7 @@ def gen_ops_small(rng, kind, n):
     for _ in range(rng.choice([1, 1, 2, 3, 4])):
         r = rng.random()
         calls = None if r < 0.4 else ([("multiplicity_cut", ((50, None),))] if r < 0.47 else gen_calls(rng, kind))
-        ops.append((rng.choice(valid_selectors(n)), calls))
+        ops.append((rng.choice(valid_selectors(n)), calls, gen_via(rng, 0.25)))
     return ops
 
 
@@ -1009,75 +1271,137 @@ def gen_ops_big(rng, kind, n, k):
     for sel in big_selectors(rng, n, k):
         r = rng.random()
         calls = None if r < 0.6 else ([("charged_particles", ())] if r < 0.75 else gen_calls(rng, kind))
-        ops.append((sel, calls))
+        ops.append((sel, calls, gen_via(rng, 0.15)))
     return ops
+
+
+def gen_text_variant(rng, p=0.35):
+    return rng.choice(TEXT_VARIANTS[1:]) if rng.random() < p else "lf"
+
+
+def report(ctx, seen, fails, run, ops, refpos, env, mk_input, spec=None):
+    """shrink and register every not yet reported key of `fails`"""
+    while True:
+        f = first_fail(fails, seen)
+        if f is None:
+            return
+        key = f[0]
+        seen.add(key)
+        ops2, ref2 = shrink_ops(lambda o, r: run(o, r, env), ops, refpos, key)
+        env2 = env
+        # a plain environment / plain text if the failure does not need them
+        for drop in ("npstate", "cwd", "via_ref", "input_via", "container"):
+            if env2.get(drop):
+                cand = {k: v for k, v in env2.items() if k != drop}
+                try:
+                    if any(k == key for k, _ in run(ops2, ref2, cand)[0]):
+                        env2 = cand
+                except Exception:
+                    pass
+        ops3 = [(o[0], o[1], None) for o in ops2]
+        try:
+            if any(k == key for k, _ in run(ops3, ref2, env2)[0]):
+                ops2 = ops3
+        except Exception:
+            pass
+        s2 = spec
+        if spec is not None and getattr(spec, "text_variant", "lf") != "lf":
+            cand = copy.deepcopy(spec)
+            cand.text_variant = "lf"
+            try:
+                if any(k == key for k, _ in file_session(cand, ops2, ref2, env2)[0]):
+                    s2 = cand
+            except Exception:
+                pass
+        if spec is not None and len(ops2) == 1 and not env2 and ops2[0][2] is None \
+                and not key.startswith(("input-modified", "earlier-object-changed", "environment-changed", "copy-raises")):
+            s2, sel2, c2 = shrink_file(s2, ops2[0][0], ops2[0][1], key)
+            ops2, ref2 = [(sel2, c2, None)], 0
+        runner = (lambda o, r, e: file_session(s2, o, r, e)) if spec is not None else run
+        f2 = [x for x in runner(ops2, ref2, env2)[0] if x[0] == key]
+        ctx.violation(key, f2[0][1] if f2 else f[1],
+                      dict(input=mk_input(s2, ops2, ref2, env2), how_to_replay="./check C02 --replay <this file>"))
+
+
+def file_input(s2, ops2, ref2, env2):
+    inp = dict(kind="file-session", spec=enc_spec(s2), ops=enc_ops(ops2), refpos=ref2, env=env2, n_events=len(s2.events),
+               text_variant=getattr(s2, "text_variant", "lf"),
+               text=spec_text(s2) if len(s2.events) <= 12 else "(see spec)")
+    if len(ops2) == 1:
+        inp.update(sel=enc_sel(ops2[0][0]), calls=enc_calls(ops2[0][1]))
+    return inp
 
 
 def search(ctx, budget_s):
     rng = ctx.rng
     t0 = time.time()
-    nfile = nsess = npos = nskip = nbig = 0
+    nfile = nsess = npos = nskip = nbig = nvar = nenv = 0
     seen = set()
     pats = all_patterns(4)
     limit = (4000 if ctx.thorough else 260) * (4 if ctx.broken else 1)
     # corpus first, then one large file per size class, then random sessions (every 6th on a large file)
-    todo = [(s, [(sel, c)], 0) for s, sel, c, _ in corpus_cases() if sel is not None and "invalid" not in sel_tag(sel, len(s.events))]
+    todo = [(s, [(sel, c, None)], 0, {}) for s, sel, c, _ in corpus_cases()
+            if sel is not None and "invalid" not in sel_tag(sel, len(s.events))]
     big_kinds = ["oscar2013", "extended", "ascii", rng.choice(["jetscape", "jetscapeP"])]
     rng.shuffle(big_kinds)
     for i, (lo, hi) in enumerate(BIG_CLASSES):
         kind = big_kinds[i % len(big_kinds)] if i < 3 else rng.choice(KINDS)
         n = rng.randint(lo, hi)
         spec = gen_big_file(rng, kind, n)
+        spec.text_variant = gen_text_variant(rng, 0.25)
         ops = gen_ops_big(rng, kind, n, 10 if not ctx.thorough else 16)
-        todo.append((spec, ops, rng.randint(0, len(ops))))
+        todo.append((spec, ops, rng.randint(0, len(ops)), gen_env(rng, 0.2)))
+    # every text variant and every environment on a small Oscar-family and a small JETSCAPE file, early
+    for tv in TEXT_VARIANTS[1:]:
+        for kind in (rng.choice(KINDS[:3]), rng.choice(KINDS[3:])):
+            pat = rng.choice([p for p in pats if len(p) >= 3])
+            spec = gen_file(rng, kind, gen_sizes(rng, pat), full_cols=True)
+            spec.text_variant = tv
+            ops = [(sel, rng.choice([None, None, gen_calls(rng, kind)]), gen_via(rng, 0.2))
+                   for sel in rng.sample(valid_selectors(len(pat)), 4)]
+            todo.append((spec, ops, rng.randint(0, len(ops)), gen_env(rng, 0.3)))
     while (time.time() - t0 < budget_s and nfile < limit) or todo:
         if todo:
-            spec, ops, refpos = todo.pop(0)
+            spec, ops, refpos, env = todo.pop(0)
         elif nsess % 6 == 5:
             kind = rng.choice(KINDS[:3]) if rng.random() < 0.7 else rng.choice(KINDS)
             lo, hi = rng.choice(BIG_CLASSES + ([(129, 136)] if ctx.thorough else []))
             n = rng.randint(lo, hi)
             spec = gen_big_file(rng, kind, n)
+            spec.text_variant = gen_text_variant(rng, 0.25)
             ops = gen_ops_big(rng, kind, n, rng.randint(6, 12))
-            refpos = rng.randint(0, len(ops))
+            refpos, env = rng.randint(0, len(ops)), gen_env(rng, 0.2)
         else:
             kind = KINDS[nsess % len(KINDS)]
             pat = rng.choice(pats) if rng.random() < 0.85 else tuple(rng.random() < 0.25 for _ in range(rng.randint(5, 7)))
             spec = gen_file(rng, kind, gen_sizes(rng, pat), full_cols=True)
+            spec.text_variant = gen_text_variant(rng)
             ops = gen_ops_small(rng, kind, len(pat))
-            refpos = rng.randint(0, len(ops))
+            refpos, env = rng.randint(0, len(ops)), gen_env(rng)
+            if rng.random() < 0.2:
+                env["via_ref"] = gen_via(rng, 1.0)
         nsess += 1
         nfile += len(ops)
         nbig += len(ops) if len(spec.events) > 8 else 0
-        fails, sk = file_session(spec, ops, refpos)
+        nvar += len(ops) if getattr(spec, "text_variant", "lf") != "lf" else 0
+        nenv += len(ops) if env.get("npstate") or env.get("cwd") else 0
+        fails, sk = file_session(spec, ops, refpos, env)
         nskip += sk
-        for sel, calls in ops:
-            ctx.case(("oracle", spec.kind, tuple(len(e) for e in spec.events), sel, repr(enc_calls(calls)), nfile), True)
+        for o in ops:
+            ctx.case(("oracle", spec.kind, tuple(len(e) for e in spec.events), o[0], repr(enc_calls(o[1])), nfile), True)
         ctx.count("oracle/events-in-file/" + ("<=4" if len(spec.events) <= 4 else "5-8" if len(spec.events) <= 8 else
                                               "9-16" if len(spec.events) <= 16 else "17-32" if len(spec.events) <= 32 else
                                               "33-64" if len(spec.events) <= 64 else "65+"), len(ops))
-        while True:
-            f = first_fail(fails, seen)
-            if f is None:
-                break
-            key = f[0]
-            seen.add(key)
-            ops2, ref2 = shrink_ops(lambda o, r: file_session(spec, o, r), ops, refpos, key)
-            s2 = spec
-            if len(ops2) == 1 and not key.startswith(("input-modified", "earlier-object-changed")):
-                s2, sel2, c2 = shrink_file(spec, ops2[0][0], ops2[0][1], key)
-                ops2, ref2 = [(sel2, c2)], 0
-            f2 = [x for x in file_session(s2, ops2, ref2)[0] if x[0] == key]
-            what = f2[0][1] if f2 else f[1]
-            inp = dict(kind="file-session", spec=enc_spec(s2), ops=[[enc_sel(se), enc_calls(c)] for se, c in ops2], refpos=ref2,
-                       n_events=len(s2.events), text=s2.text() if len(s2.events) <= 12 else "(see spec)")
-            if len(ops2) == 1:
-                inp.update(sel=enc_sel(ops2[0][0]), calls=enc_calls(ops2[0][1]))
-            ctx.violation(key, what, dict(input=inp, how_to_replay="./check C02 --replay <this file>"))
+        ctx.count("oracle/text/" + getattr(spec, "text_variant", "lf"), len(ops))
+        ctx.count("oracle/env/" + env_tag(env), len(ops))
+        for o in ops:
+            ctx.count("oracle/via/" + str(op3(o)[2]))
+        report(ctx, seen, fails, lambda o, r, e, sp=spec: file_session(sp, o, r, e), ops, refpos, env, file_input, spec=spec)
     # particle-object storer: sessions on one list object
     limit_pos = 600 if ctx.thorough else 90
     t1 = time.time()
-    while npos < limit_pos and time.time() - t1 < max(5, budget_s / 3):
+    first_containers = list(CONTAINERS[1:])
+    while (npos < limit_pos and time.time() - t1 < max(5, budget_s / 3)) or first_containers:
         pat = rng.choice(pats) if rng.random() < 0.8 else tuple(rng.random() < 0.2 for _ in range(rng.randint(5, 12)))
         sizes = gen_sizes(rng, pat)
         n = len(pat)
@@ -1085,26 +1409,29 @@ def search(ctx, budget_s):
         for _ in range(rng.choice([1, 2, 3, 3, 4, 5])):
             sel = rng.choice(valid_selectors(n) + [None])
             calls = None if rng.random() < 0.45 else [pmodel.gen_call(rng, [rng.choice(POS_FILTERS)])]
-            ops.append((sel, calls))
+            ops.append((sel, calls, gen_via(rng, 0.25)))
         refpos = rng.randint(0, len(ops))
         pseed = rng.randrange(2 ** 31)
+        env = {}
+        if first_containers:
+            env["container"] = first_containers.pop(0)
+        elif rng.random() < 0.3:
+            env["container"] = rng.choice(CONTAINERS[1:])
+        if rng.random() < 0.2:
+            env["input_via"] = gen_via(rng, 1.0)
+        if rng.random() < 0.25:
+            env["npstate"] = rng.randrange(1, 10 ** 6)
+        if rng.random() < 0.15:
+            env["via_ref"] = gen_via(rng, 1.0)
         npos += len(ops)
-        fails, sk = pos_session(pseed, sizes, ops, refpos)
-        for sel, calls in ops:
-            ctx.case(("oracle-pos", tuple(sizes), sel, repr(enc_calls(calls)), npos), True)
-        while True:
-            f = first_fail(fails, seen)
-            if f is None:
-                break
-            key = f[0]
-            seen.add(key)
-            ops2, ref2 = shrink_ops(lambda o, r: pos_session(pseed, sizes, o, r), ops, refpos, key)
-            f2 = [x for x in pos_session(pseed, sizes, ops2, ref2)[0] if x[0] == key]
-            ctx.violation(key, f2[0][1] if f2 else f[1],
-                          dict(input=dict(kind="pos-session", sizes=sizes, pseed=pseed, refpos=ref2,
-                                          ops=[[enc_sel(se), enc_calls(c)] for se, c in ops2]),
-                               how_to_replay="./check C02 --replay <this file>"))
-    ctx.cov["oracle_cases"] = dict(files=nfile, file_sessions=nsess, on_files_with_more_than_8_events=nbig, skipped=nskip,
+        fails, sk = pos_session(pseed, sizes, ops, refpos, env)
+        for o in ops:
+            ctx.case(("oracle-pos", tuple(sizes), o[0], repr(enc_calls(o[1])), npos), True)
+        ctx.count("oracle/pos-container/" + (env.get("container") or "list"), len(ops))
+        report(ctx, seen, fails, lambda o, r, e, ps=pseed, sz=sizes: pos_session(ps, sz, o, r, e), ops, refpos, env,
+               lambda _s, o2, r2, e2, ps=pseed, sz=sizes: dict(kind="pos-session", sizes=sz, pseed=ps, refpos=r2, ops=enc_ops(o2), env=e2))
+    ctx.cov["oracle_cases"] = dict(files=nfile, file_sessions=nsess, on_files_with_more_than_8_events=nbig,
+                                   on_non_plain_text_variants=nvar, in_changed_environment=nenv, skipped=nskip,
                                    particle_object_storer=npos)
     ctx.count("oracle/file", nfile)
     ctx.count("oracle/pos", npos)
@@ -1148,17 +1475,17 @@ def replay(ctx, path):
         if inp["kind"] == "pos":
             ops, pseed, refpos = [(dec_sel(inp["sel"]), dec_calls(inp.get("calls")))], inp.get("seed", 0), 0
         else:
-            ops = [(dec_sel(o[0]), dec_calls(o[1])) for o in inp["ops"]]
+            ops = dec_ops(inp["ops"])
             pseed, refpos = inp["pseed"], inp.get("refpos", 0)
-        fails, _ = pos_session(pseed, inp["sizes"], ops, refpos)
+        fails, _ = pos_session(pseed, inp["sizes"], ops, refpos, inp.get("env") or {})
         return report_replay(path, fails)
     if inp["kind"] == "file-session":
         spec = dec_spec(inp["spec"])
-        ops = [(dec_sel(o[0]), dec_calls(o[1])) for o in inp["ops"]]
-        fails, _ = file_session(spec, ops, inp.get("refpos", 0))
+        ops = dec_ops(inp["ops"])
+        fails, _ = file_session(spec, ops, inp.get("refpos", 0), inp.get("env") or {})
         rc = report_replay(path, fails)
         if len(ops) == 1:
-            sel, calls = ops[0]
+            sel, calls, _ = ops[0]
             real = real_obs(spec, sel, calls)
             model, wf, specside = split_obs(common.run_driver("C02", [obs_line(spec, sel, calls)])[0])
             print(f"[C02] code : {real}\n[C02] model: {model}\n[C02] spec : {specside}  (wf={wf})")
